@@ -19,7 +19,7 @@ META = {
                     "C02 contract on bin1d_vec installed underneath"],
     "deciding": ["post:spatial_magnitude_counts", "post:spatial_counts", "post:magnitude_counts", "identity:marginals", "reject:out-of-range", "history:rebind-region"],
 }
-META["added"] = "Added: events in holes / flagged-out cells as the outside event, quadtree grids from shuffled and coarse-first listings and the grid's north edge, region re-binding and in-place re-ordering histories on one catalog object, a competing region-bound magnitude grid next to an explicit mag_bins, magnitude grids built with numpy.arange / start+k*step / linspace (round-off edges) with events on the nominal decimal edges. outside events leaving the box in exactly one coordinate or on its north / east edge."
+META["added"] = "Added: events in holes / flagged-out cells as the outside event, quadtree grids from shuffled and coarse-first listings and the grid's north edge, region re-binding and in-place re-ordering histories on one catalog object, a competing region-bound magnitude grid next to an explicit mag_bins, magnitude grids built with numpy.arange / start+k*step / linspace (round-off edges) with events on the nominal decimal edges. outside events leaving the box in exactly one coordinate or on its north / east edge. single-precision magnitude columns."
 MANIFEST = {
     "technique": "runtime post-conditions (conservation, immutability) on the real catalog gridding methods at every call + brute-force reference gridding on generated catalogs incl. hostile out-of-range mixes; marginal identities and filter-equivalence checked per case",
     "level_text": "Each generated catalog/region pair is gridded by the real methods; the count array is compared entry by entry with a brute-force reference, totals and both marginals are exact integer identities, occupancy equals [count>0], each magnitude bin equals the size of the equivalent magnitude-range filter, and catalogs containing events outside the region or below the first magnitude edge must be rejected (space-magnitude) or left uncounted (magnitude histogram). Every call of the four gridding methods is also checked for conservation and for not mutating the catalog.",
@@ -283,6 +283,14 @@ def run_case(ctx, rc, tags, reg, bins, explicit, lon, lat, mags, cell, mk, hosti
     lon, lat, mags, cell, mk = lon[order], lat[order], mags[order], numpy.asarray(cell)[order], numpy.asarray(mk)[order]
     kw = {"mag_bins": bins} if explicit else {}
     cat = fixtures.catalog(lon, lat, mags, region=reg)
+    if hostile == "none" and n and tags.get("edges") == "decimal" and int(rng.integers(0, 5)) == 0:
+        # a catalog whose magnitude column is single precision (readers may deliver that): an on-edge magnitude is then the float32 nearest to
+        # the edge, i.e. within the float32 round-off tolerance of it - gridding and the equivalent filter must still agree
+        from csep.core.catalogs import CSEPCatalog
+        a = cat.catalog
+        dt = [(nm, (a.dtype[nm] if nm != "magnitude" else numpy.dtype("<f4"))) for nm in a.dtype.names]
+        cat = CSEPCatalog(data=a.astype(dt), region=reg)
+        tags = dict(tags, magnitude_dtype="float32")
     ref = numpy.zeros((ncell, bins.size))
     numpy.add.at(ref, (cell, mk), 1)
     ctx.count(1)
@@ -320,7 +328,9 @@ def run_case(ctx, rc, tags, reg, bins, explicit, lon, lat, mags, cell, mk, hosti
             for k in sorted(set(rng.integers(0, bins.size, 4).tolist() + [bins.size - 1])):
                 st = ["magnitude >= %r" % float(bins[k])] + (["magnitude < %r" % float(bins[k + 1])] if k + 1 < bins.size else [])
                 okf, f, tbf = ctx.call(cat.filter, st, in_place=False)
-                if okf and f.event_count != numpy.asarray(mc)[k]:
+                if not okf:
+                    ctx.violate("the equivalent magnitude-range filter raised", rc, observed=repr(f), tb=tbf, tags=dict(tags, api="filter", clause="filter-equivalence"))
+                elif f.event_count != numpy.asarray(mc)[k]:
                     ctx.violate("count in magnitude bin k != number of events kept by the equivalent magnitude-range filter", rc,
                                 observed={"k": k, "count": float(numpy.asarray(mc)[k]), "filter": int(f.event_count)}, tags=dict(tags, api="magnitude_counts", clause="filter-equivalence"))
         return cat, lon, lat, cell, mk
